@@ -12,7 +12,7 @@ F  QueryCancelGen: for each scenario (one workload of 1, 2 or 3 directories; wit
    child process (verif gate parks the worker; Statement.MaxMemPct = 0 makes heap.Watch report a
    breach at its first tick) and the observed outcome must be one the REPAIRED design allows.  An
    outcome only the design AS BUILT allows is the defect found with this check at the pinned commit
-   (DESIGN 14; repaired in /repo by 7f850d5): it is reported as a violation again if it returns.
+   (DESIGN 14; repaired in /repo by c780f52): it is reported as a violation again if it returns.
 
 This file is not listed in MANIFEST.json (the manifest is about the given properties); run it with
 `./check X01`.  exit 0: every scenario conforms to the repaired design; exit 1: an outcome the
